@@ -86,6 +86,10 @@ CLAIMED = {
                  "symbolic routes, solver-chosen must_host hints and random draws; for every returned mapping z3 decides 'each computation once on a declared agent, hints honoured, footprint sums within capacity', "
                  "any exception other than ImpossibleDistributionException is a violation. Two listed findings (hints ignored by three methods; adhoc must_host capacity).",
             "Bounded: <= 3 computations, 1-2 agents in quick (3 in thorough), real-valued parameters in [0, 2^20], unit message load. The ILP methods' solve step cannot run (no GLPK); the distribute command (file I/O) is outside.", "4/C23", S),
+    "C24": ("S", "oilp_cgdp.ilp_cgdp and ilp_fgdp.factor_graph_lp_model are executed with symbolic capacities, footprints, hosting costs and routes flowing through PuLP's coefficient arithmetic; "
+                 "LpProblem.solve is replaced by a capture of the built model. For every 0/1 point z3 decides, for all parameter values, model-feasible <=> the method's hard rules, and objective == the method's own "
+                 "distribution_cost of the decoded placement. One listed finding (oilp_cgdp objective with pinned computations).",
+            "Model == specification only: the LP solver itself (GLPK, not installed) is trusted and never run. Bounded: <= 3 computations x 2 agents (3 in thorough), unit message load, real parameters in [0, 2^20].", "4/C24", S),
     "C28": ("S", "For every shipped algorithm module the declared algo_params are read at run time and prepare_algo_params / AlgorithmDef.build_with_default_param / build_algo_def are executed on "
                  "every combination (in the bound) of given parameters and value kinds; the expected result is computed from the AlgoParameterDef tuples. The engine enumerates the space exhaustively.",
             "Discrete exploration with representative value pools per declared type (no symbolic strings: CrossHair was planned, Engine S's bounded choices are used instead, see DESIGN); <= 2 parameters given at once.", "4/C28", S),
